@@ -51,6 +51,13 @@ func init() {
 		Assumptions: []string{"jirenius/keylock is replaced by a scheduler-visible stub with the same API and RW semantics", "mockstore transactions are entered only when the harness's own table says they will not block (sync.RWMutex waits are invisible to synctest); the real lock is probed after every step"},
 	})
 	addCheck(&CheckSpec{
+		Property: "C10", Level: "exploration", OwnsPanics: true,
+		Rule:   "storecoh scenario: store.Handler over mockstore and over badgerstore on real BadgerDB; model and collection resources; no transformer / IDTransformer / custom transform (dropping a property, mapping members to references); with and without default; 1-3 rounds in which 1-3 mutator goroutines run create/update/delete transactions (values from primitives, references, soft references, data values; collections over a 3-letter alphabet up to length 4), contended on one id, with yields inside transactions (badgerstore) and at every publish, and gets racing the mutations.",
+		Oracle: "a reference RES client cache (own code) fetches every resource at a quiescent instant, then applies in connection order every event published for the resource during the round (change with delete actions, add/remove with index range checks at application time, create/delete flipping the missing state) and must equal a fresh get at the next quiescent instant; an event that cannot be applied, a missing-state mismatch or stale data is a violation.",
+		Scen:   []ScenBudget{{"storecoh", 2500, 120000}},
+		Assumptions: []string{"mockstore transactions are atomic steps (no yield while its lock is held); interleavings inside transactions are explored on badgerstore with the keylock stub"},
+	})
+	addCheck(&CheckSpec{
 		Property: "C07", Level: "exploration",
 		Rule:   "transport monitor on every Publish of the requests and core scenarios: results/models/collections/event payloads that are nil, nested, need escaping or cannot be marshalled; every meta combination on HTTP and non-HTTP requests; marshal failures and publish errors as injected faults.",
 		Oracle: "independent validator written from the RES protocol text: subject is a publishable NATS subject of a documented form (reply inbox handed out by the peer, event.<rid>.<name>, system.reset, system.tokenReset, conn.<cid>.token); payload has the documented shape for its kind (response with exactly one of result/resource/error, error with string code and message, meta only for HTTP requests, pre-response timeout:\"<ms>\", per-event fields).",
